@@ -133,14 +133,23 @@ func (s *session) SignalSubscribe(pkt *mqttp.Subscribe) (mqttp.IFace, error) {
 		}
 	}
 
+	// a packet that is a protocol error has no effect at all: it is looked through before the first
+	// of its filters is subscribed
 	err := pkt.ForEachTopic(func(t *mqttp.Topic) error {
+		// V5.0 [MQTT-3.8.3-4] It is a Protocol Error to set the No Local bit to 1 on a Shared Subscription
+		if t.ShareName() != "" && t.Ops().NL() {
+			return mqttp.CodeProtocolError
+		}
+
+		return nil
+	})
+	if err != nil {
+		return nil, err
+	}
+
+	err = pkt.ForEachTopic(func(t *mqttp.Topic) error {
 		// V5.0
 		if t.ShareName() != "" {
-			// [MQTT-3.8.3-4] It is a Protocol Error to set the No Local bit to 1 on a Shared Subscription
-			if t.Ops().NL() {
-				return mqttp.CodeProtocolError
-			}
-
 			if !s.sharedSubscriptions {
 				retCodes = append(retCodes, mqttp.CodeSharedSubscriptionNotSupported)
 				return nil
